@@ -78,6 +78,10 @@ Restart == /\ cur' = "" /\ unsaved' = {} /\ res' = R("restart", {}) /\ UNCHANGED
 
 \* the process dies (nothing is closed or flushed) and a new one starts: every statement that returned had its
 \* records fsynced, so recovery of every database restores exactly the promise
+\* (A process that dies INSIDE CreateDb is the same step as far as every other database is concerned: CreateDb is atomic
+\* here, the statement never returned and nothing is promised about the new name - on disk it is several writes, and the
+\* replay harness restarts on every prefix of them, scenario `half`: the other databases are as they were and work, and
+\* statements on the unfinished one are answered, by an error.)
 CrashRestart == /\ cur' = "" /\ unsaved' = {} /\ res' = R("crash", {}) /\ UNCHANGED <<dbs, content>>
 
 \* CREATE TABLE of a table other than t in the selected database: nothing the promises talk about changes (how many
